@@ -16,6 +16,9 @@ var c04ClientRates = []uint{0, 0, 1, 2, 7, 1000, 1<<31 - 1}
 func genC04Case(t *rapid.T) colCase {
 	cfg := genLifecycleCfg(t)
 	cfg.Sampler = genSampler(t, "s4")
+	if rapid.IntRange(0, 5).Draw(t, "ruleszero") == 0 {
+		cfg.Sampler = samplerSpec{Kind: "ruleszero", Rate: rapid.SampledFrom([]int{0, -3}).Draw(t, "zerorate")}
+	}
 	cfg.StressRate = rapid.SampledFrom([]uint64{0, 1, 2, 3, 5}).Draw(t, "stressrate")
 	cfg.AddReason = rapid.Bool().Draw(t, "addreason")
 	c := colCase{Cfg: cfg}
@@ -52,6 +55,8 @@ func allowedTraceRates(s samplerSpec) (rates map[uint]bool, any bool) {
 		return map[uint]bool{r: true}, false
 	case "rulesdown":
 		return map[uint]bool{1: true, r: true}, false
+	case "ruleszero":
+		return map[uint]bool{1: true}, false
 	}
 	return nil, true
 }
